@@ -7,6 +7,7 @@ import (
 	"net"
 	"net/http"
 	"net/http/httptest"
+	"os"
 	"sort"
 	"strings"
 	"testing"
@@ -15,6 +16,7 @@ import (
 	middlewareapi "github.com/oauth2-proxy/oauth2-proxy/v7/pkg/apis/middleware"
 	"github.com/oauth2-proxy/oauth2-proxy/v7/pkg/apis/options"
 	"github.com/oauth2-proxy/oauth2-proxy/v7/pkg/cookies"
+	"github.com/spf13/pflag"
 )
 
 func init() { vDrivers["C18"] = driveC18 }
@@ -91,6 +93,7 @@ func vMin(a, b int) int {
 }
 
 func driveC18(t *testing.T, out *vEmitter) {
+	vC18LoadedConfig(t, out)
 	// ---- 1. sweep of the constructor against the model and the reference ----
 	domainSets := [][]string{nil, {"example.com"}, {".example.com"}, {".a.example.com", ".example.com"},
 		{"x.a.example.com", "a.example.com", "example.com"}, {".example.org", ".b.example.com"}, {"localhost"}}
@@ -305,6 +308,112 @@ func driveC18(t *testing.T, out *vEmitter) {
 		check("bad-callback", b.do("GET", e.opts.ProxyPrefix+"/callback?code=c&state=zzzzzzzzzz:/", hdr, ""))
 		check("sign_out", b.do("GET", e.opts.ProxyPrefix+"/sign_out", hdr, ""))
 		check("after", b.do("GET", "/", hdr, ""))
+	}
+}
+
+// vC18LoadedConfig: the cookie options given the way an operator gives them (command-line flags, comma-separated and
+// repeated; a configuration file; the environment) and loaded by main's own loader: every Set-Cookie then carries the
+// attributes as written there, the Domain chosen among the INDIVIDUAL domains listed.
+func vC18LoadedConfig(t *testing.T, out *vEmitter) {
+	type intent struct {
+		domains  []string
+		secure   bool
+		httponly bool
+		samesite string
+		path     string
+		name     string
+	}
+	type form struct {
+		name string
+		args []string
+		toml string
+		env  map[string]string
+	}
+	b2s := func(b bool) string { return fmt.Sprint(b) }
+	intents := []intent{
+		{[]string{".a.example.com", ".example.com"}, true, true, "lax", "/", "_oauth2_proxy"},
+		{[]string{"x.a.example.com", "a.example.com", "example.com"}, false, true, "strict", "/app", "sess"},
+		{[]string{".example.org"}, true, false, "none", "/", "_oauth2_proxy"},
+		{nil, true, true, "", "/", "_oauth2_proxy"},
+	}
+	hosts := []string{"deep.a.example.com", "other.example.com:8443", "unrelated.test", "x.a.example.com", "example.org"}
+	for ii, in := range intents {
+		quoted := []string{}
+		for _, d := range in.domains {
+			quoted = append(quoted, fmt.Sprintf("%q", d))
+		}
+		common := []string{"--cookie-secure=" + b2s(in.secure), "--cookie-httponly=" + b2s(in.httponly), "--cookie-samesite=" + in.samesite,
+			"--cookie-path=" + in.path, "--cookie-name=" + in.name}
+		repeated := append([]string(nil), common...)
+		for _, d := range in.domains {
+			repeated = append(repeated, "--cookie-domain="+d)
+		}
+		forms := []form{
+			{name: "flags-repeated", args: repeated},
+			{name: "config-file", toml: fmt.Sprintf("cookie_domains=[%s]\ncookie_secure=%s\ncookie_httponly=%s\ncookie_samesite=%q\ncookie_path=%q\ncookie_name=%q\n",
+				strings.Join(quoted, ","), b2s(in.secure), b2s(in.httponly), in.samesite, in.path, in.name)},
+			{name: "environment", env: map[string]string{"OAUTH2_PROXY_COOKIE_DOMAINS": strings.Join(in.domains, ","), "OAUTH2_PROXY_COOKIE_SECURE": b2s(in.secure),
+				"OAUTH2_PROXY_COOKIE_HTTPONLY": b2s(in.httponly), "OAUTH2_PROXY_COOKIE_SAMESITE": in.samesite, "OAUTH2_PROXY_COOKIE_PATH": in.path, "OAUTH2_PROXY_COOKIE_NAME": in.name}},
+		}
+		if len(in.domains) > 0 {
+			forms = append(forms, form{name: "flags-comma-separated", args: append(append([]string(nil), common...), "--cookie-domain="+strings.Join(in.domains, ","))})
+			if len(in.domains) > 1 {
+				forms = append(forms, form{name: "flags-mixed", args: append(append([]string(nil), common...), "--cookie-domain="+strings.Join(in.domains[:len(in.domains)-1], ","), "--cookie-domain="+in.domains[len(in.domains)-1])})
+			}
+		}
+		for _, f := range forms {
+			cf := ""
+			if f.toml != "" {
+				cf = vWriteFile(fmt.Sprintf("c18-loaded-%d.toml", ii), f.toml)
+			}
+			for k, v := range f.env {
+				os.Setenv(k, v)
+			}
+			loaded, err := loadConfiguration(cf, "", pflag.NewFlagSet("verif", pflag.ContinueOnError), f.args)
+			for k := range f.env {
+				os.Unsetenv(k)
+			}
+			if err != nil {
+				out.Violation("cookie-attrs/config-not-loaded", "cookie options in a documented form were refused by the loader",
+					map[string]interface{}{"form": f.name, "error": err.Error(), "args": f.args})
+				continue
+			}
+			e := vTryNewEnv(t, vEnvCfg{oidc: true, mod: func(o *options.Options) {
+				secret := o.Cookie.Secret
+				o.Cookie = loaded.Cookie
+				o.Cookie.Secret = secret
+			}})
+			if e == nil {
+				out.Violation("cookie-attrs/config-not-loaded", "cookie options in a documented form did not validate once loaded",
+					map[string]interface{}{"form": f.name, "loaded_domains": loaded.Cookie.Domains, "args": f.args})
+				continue
+			}
+			want := options.Cookie{Name: in.name, Path: in.path, Domains: in.domains, Secure: in.secure, HTTPOnly: in.httponly, SameSite: in.samesite}
+			scheme := "http"
+			if in.secure {
+				scheme = "https"
+			}
+			for _, h := range hosts {
+				hb := e.newBrowser(scheme + "://" + h)
+				res := hb.do("GET", e.opts.ProxyPrefix+"/start?rd=%2F", nil, "")
+				raws := res.Header["Set-Cookie"]
+				if len(res.Cookies) == 0 {
+					out.Violation("cookie-attrs/config-not-loaded", "the login start set no cookie", map[string]interface{}{"form": f.name, "host": h, "status": res.Status})
+				}
+				for j, c := range res.Cookies {
+					raw := ""
+					if j < len(raws) {
+						raw = raws[j]
+					}
+					if !strings.HasPrefix(c.Name, in.name) {
+						out.Violation("cookie-attrs/name", "a cookie is not named after the configured cookie name",
+							map[string]interface{}{"form": f.name, "cookie": c.Name, "configured": in.name})
+					}
+					vCheckCookie(out, &want, h, c, raw, fmt.Sprintf("loaded-config/%s/%d", f.name, ii))
+				}
+				out.Stat("loaded_config_responses", 1)
+			}
+		}
 	}
 }
 
